@@ -1572,7 +1572,9 @@ def c08(run):
            "random draws are validated nationally; the same component text is also built under several "
            "countries in varying order; for every country with positions: components are read off nationally "
            "valid IBANs and the BBAN is rebuilt and compared outside filler positions; non-trivial = distinct IBAN",
-      note="compute -> validate proved per algorithm for the model; end-to-end agreement checked dynamically")
+      note="compute -> validate proved per algorithm; build_validates / generate_passes_national prove the "
+           "end-to-end agreement for the 19 countries (live tables, every registry naming no method); random "
+           "draws and parse -> rebuild are checked dynamically")
 def c09(run):
     import natref
     from random import Random
